@@ -1,7 +1,7 @@
 (* C05 — logical clocks only move forward and dominate everything seen. Property theorems only. *)
 From Coq Require Import List Arith NArith Lia Bool.
 Import ListNotations.
-From GB Require Import Reach Sort Read Good Snoc World ClockWrap.
+From GB Require Import Reach Sort Read Good Snoc World ClockWrap Sync SyncProps.
 Local Open Scope N_scope.
 
 (* in every state reachable by any interleaving (including restarts with lost clock files), each replica's
@@ -29,3 +29,9 @@ Print Assumptions C05_forged_jump_refuted.
 Theorem C05_wrap_refuted : exists c p, after_forged_root c p (wrap - 1) = (0, false).
 Proof. exact forged_wrap_refuted. Qed.
 Print Assumptions C05_wrap_refuted.
+
+(* in every state of every session each replica's edit clock is at least the edit time of all its local heads *)
+Theorem C05_session_clock_dominates n evs sw : srun (sw0 n) evs = Some sw -> N.of_nat (total_cost evs) + 1 <= Read.jump_limit ->
+  forall rp h, In rp (reps (ww sw)) -> In h (heads rp) -> edit_of (st (ww sw)) h <= clk rp.
+Proof. exact (session_clock_dominates n evs sw). Qed.
+Print Assumptions C05_session_clock_dominates.
